@@ -123,6 +123,11 @@ class C08(core.Check):
             ("tymer", (0, 0, 32, 32), (None, None, None), (("restart", 5), ("wind", 1), ("tick", 1))),
             ("tymer", (10, 7, 1, 1), (0, 5, None), (("tyme", 0, 15), ("restart", None), ("tyme", 0, 3), ("restart", None), ("tyme", 0, 25))),
             ("tymer", (10, 7, 1, 1), (None, 5, None), (("start", None, None), ("tick", 0))),
+            # negative durations through every entry point (constructor, start, restart): stop = start + d for every d (C08-r5m2 class)
+            ("tymer", (0, 0, 32, 32), (0, -5, None), (("restart", -3), ("start", -7, None), ("restart", None), ("wind", 0), ("start", -1, 4))),
+            ("mono", 100, (0, 0, 2, 3, 1), (-4, None, True), (("expired",), ("restart", -6), ("remaining",), ("start", -2, None), ("duration",))),
+            ("ptimer", "async", 50, (0, 1, 2, 3, 4), (-3, None), (("expired",), ("restart", -1), ("duration",), ("start", -8, None), ("remaining",))),
+            ("ptimer", "timer", 50, (0, 0, 1, 2, 3, 4), (-3, None), (("expired",), ("restart", -1), ("duration",), ("start", -8, None), ("remaining",))),
             # re-winding with the very closure the tymer already holds (kept / read back) begins a fresh period (C08-r3m1 class)
             ("tymer", (0, 0, 512, 32), (0, 2048, None), (("tick", 0), ("tick", 0), ("tick", 0), ("wind", 0), ("tick", 0), ("restart", None), ("windh",), ("windf", 0))),
             # C08-H1 (fixed efaf005): a rejected start() on an unwound tymer must leave it usable
@@ -157,17 +162,17 @@ class C08(core.Check):
     def generate(self, rng, n, tier):
         for _ in range(n):
             r = rng.random()
-            if r < 0.12:
+            if r < 0.10:
                 yield gen_ftymer(rng)
-            elif r < 0.28:
+            elif r < 0.24:
                 yield T.gen_fmono(rng)
-            elif r < 0.40:
+            elif r < 0.34:
                 yield T.gen_ptimer(rng)
-            elif r < 0.50:
+            elif r < 0.42:
                 yield T.gen_fptimer(rng)
-            elif r < 0.35:
+            elif r < 0.62:
                 yield T.gen_tymer(rng)
-            elif r < 0.45:
+            elif r < 0.70:
                 yield T.boundary_tymer(rng)
             else:
                 yield T.gen_mono(rng)
